@@ -59,3 +59,343 @@ pub fn ref_cidr_match(ip: &str, cidr: &str) -> bool {
 fn l_has_sign_or_space(s: &str) -> bool {
     s.is_empty() || !s.bytes().all(|b| b.is_ascii_digit())
 }
+
+// ------------------------------------------------------------------------------------------------
+// Engine E2: every rule list up to length 3 (thorough 4) over 12 rule shapes x a request grid x upstream feature
+// sets, through the real GlobalState::set_rules + process_request with recorder connectors, against a 6-line
+// first-match reference.
+use super::world::*;
+use crate::context::{ContextState, Feature, TargetAddress};
+use crate::rules::script_ext::create_context;
+use milu::script::Evaluatable;
+use serde_json::json;
+use std::sync::atomic::{AtomicU64, Ordering};
+use std::sync::Arc;
+
+#[derive(Clone, Copy, Debug, PartialEq, Eq, Hash)]
+enum Filt {
+    Absent,
+    ListenerL1,
+    Port80,
+    HostIsOne, // to_integer(request.target.host) == 1 : evaluation error unless the host is numeric
+}
+const FILTS: [Filt; 4] = [Filt::Absent, Filt::ListenerL1, Filt::Port80, Filt::HostIsOne];
+const TARGETS: [&str; 3] = ["A", "B", "deny"];
+
+fn filt_text(f: Filt) -> Option<&'static str> {
+    match f {
+        Filt::Absent => None,
+        Filt::ListenerL1 => Some("request.listener == \"l1\""),
+        Filt::Port80 => Some("request.target.port == 80"),
+        Filt::HostIsOne => Some("to_integer(request.target.host) == 1"),
+    }
+}
+
+fn filt_matches(f: Filt, r: &Req) -> bool {
+    match f {
+        Filt::Absent => true,
+        Filt::ListenerL1 => r.listener == "l1",
+        Filt::Port80 => r.target.port() == 80,
+        // an evaluation error (non numeric host) counts as not matching
+        Filt::HostIsOne => r.target.host().parse::<i64>().map(|v| v == 1).unwrap_or(false),
+    }
+}
+
+fn requests(all: bool) -> Vec<Req> {
+    let mut v = vec![];
+    let targets: Vec<TargetAddress> = vec![
+        TargetAddress::DomainPort("a.b".into(), 0),
+        TargetAddress::DomainPort("1".into(), 0),
+        TargetAddress::SocketAddr("1.2.3.4:0".parse().unwrap()),
+        TargetAddress::SocketAddr("[2001:db8::1]:0".parse().unwrap()),
+    ];
+    for listener in ["l1", "l2"] {
+        for source in ["127.0.0.1:5000", "[::1]:5000"] {
+            for t in &targets {
+                for port in [0u16, 80, 65535] {
+                    for feature in [Feature::TcpForward, Feature::UdpForward] {
+                        let target = match t {
+                            TargetAddress::DomainPort(h, _) => TargetAddress::DomainPort(h.clone(), port),
+                            TargetAddress::SocketAddr(a) => TargetAddress::SocketAddr(std::net::SocketAddr::new(a.ip(), port)),
+                            x => x.clone(),
+                        };
+                        v.push(Req { listener: listener.into(), source: source.parse().unwrap(), target, feature });
+                    }
+                }
+            }
+        }
+    }
+    if all {
+        v
+    } else {
+        // 12 representatives: every filter outcome combination x both features
+        let pick = |l: &str, host: &str, port: u16, f: Feature| v.iter().find(|r| r.listener == l && r.target.host() == host && r.target.port() == port && r.feature == f && r.source.is_ipv4()).unwrap().clone();
+        let mut out = vec![];
+        for f in [Feature::TcpForward, Feature::UdpForward] {
+            out.push(pick("l1", "a.b", 80, f));
+            out.push(pick("l1", "1", 0, f));
+            out.push(pick("l2", "a.b", 0, f));
+            out.push(pick("l2", "1", 80, f));
+            out.push(pick("l2", "1.2.3.4", 80, f));
+            out.push(pick("l1", "2001:db8::1", 65535, f));
+        }
+        out
+    }
+}
+
+fn lists(maxlen: usize) -> Vec<Vec<(Filt, &'static str)>> {
+    let shapes: Vec<(Filt, &'static str)> = FILTS.iter().flat_map(|f| TARGETS.iter().map(move |t| (*f, *t))).collect();
+    let mut all: Vec<Vec<(Filt, &'static str)>> = vec![vec![]];
+    let mut cur: Vec<Vec<(Filt, &'static str)>> = vec![vec![]];
+    for _ in 0..maxlen {
+        let mut next = vec![];
+        for l in &cur {
+            for s in &shapes {
+                let mut n = l.clone();
+                n.push(*s);
+                next.push(n);
+            }
+        }
+        all.extend(next.iter().cloned());
+        cur = next;
+    }
+    all
+}
+
+fn rules_json(list: &[(Filt, &'static str)]) -> String {
+    let v: Vec<serde_json::Value> = list
+        .iter()
+        .map(|(f, t)| match filt_text(*f) {
+            Some(txt) => json!({"filter": txt, "target": t}),
+            None => json!({"target": t}),
+        })
+        .collect();
+    serde_json::to_string(&v).unwrap()
+}
+
+/// reference decision: Some(connector name) or None (refused)
+fn decide(list: &[(Filt, &'static str)], r: &Req, feats: &std::collections::HashMap<&str, Vec<Feature>>) -> Option<String> {
+    let (_, target) = list.iter().find(|(f, _)| filt_matches(*f, r))?;
+    if *target == "deny" {
+        return None;
+    }
+    if !feats[target].contains(&r.feature) {
+        return None;
+    }
+    Some(target.to_string())
+}
+
+#[test]
+fn check() {
+    let chk = Check::new("C02");
+    let thorough = chk.thorough();
+    let runs = AtomicU64::new(0);
+    let nontrivial = AtomicU64::new(0);
+    let outcomes = Distinct::default();
+
+    // ---- routing decisions
+    let featsets: Vec<(Vec<Feature>, Vec<Feature>)> = vec![
+        (vec![Feature::TcpForward], vec![Feature::TcpForward, Feature::UdpForward]),
+        (vec![Feature::TcpForward, Feature::UdpForward], vec![Feature::TcpForward]),
+    ];
+    let plan: Vec<(usize, bool)> = if thorough { vec![(3, true), (4, false)] } else { vec![(3, false)] };
+    for (maxlen, all_reqs) in plan {
+        let ls = lists(maxlen);
+        let reqs = requests(all_reqs);
+        par_for(ls.len(), |li| {
+            let list = &ls[li];
+            if maxlen == 4 && list.len() < 4 {
+                return; // shorter lists were done with the full request grid
+            }
+            for (fa, fb) in &featsets {
+                let log: Log = Default::default();
+                let a = Recorder::new("A", fa, Upstream::Ok { origin_sends: b"o".to_vec() }, log.clone());
+                let b = Recorder::new("B", fb, Upstream::Ok { origin_sends: b"o".to_vec() }, log.clone());
+                let state = make_state(vec![a.clone(), b.clone()], 0);
+                let rules = parse_rules(&rules_json(list)).expect("rules parse");
+                if let Err(e) = block_on(state.set_rules(rules)) {
+                    machinery(format!("set_rules failed for a valid list {:?}: {}", list, e));
+                }
+                let mut feats = std::collections::HashMap::new();
+                feats.insert("A", fa.clone());
+                feats.insert("B", fb.clone());
+                for r in &reqs {
+                    runs.fetch_add(1, Ordering::Relaxed);
+                    log.lock().unwrap().clear();
+                    a.origin_rx.lock().unwrap().clear();
+                    b.origin_rx.lock().unwrap().clear();
+                    let cb: Log = Default::default();
+                    let expect = decide(list, r, &feats);
+                    // non-trivial: a later rule (or dropping the feature gate) would give a different answer
+                    let alt1 = decide(&list[list.len().min(1)..], r, &feats);
+                    if alt1 != expect || list.iter().filter(|(f, _)| filt_matches(*f, r)).count() > 1 {
+                        nontrivial.fetch_add(1, Ordering::Relaxed);
+                    }
+                    let res = catch(|| {
+                        block_on_timeout(30, async {
+                            let (ctx, client_rx) = make_request(&state, r, b"abc", cb.clone()).await;
+                            crate::process_request(ctx.clone(), state.clone()).await;
+                            let props = ctx.read().await.props().clone();
+                            (props, client_rx)
+                        })
+                    });
+                    let replay = json!({"rules": serde_json::from_str::<serde_json::Value>(&rules_json(list)).unwrap(), "request": format!("{:?}", r), "features": {"A": format!("{:?}", fa), "B": format!("{:?}", fb)}, "expected": expect});
+                    let (props, _client_rx) = match res {
+                        Err(p) => {
+                            chk.violation("process_request", "panic", format!("{:?} {:?}: {p}", list, r), replay);
+                            continue;
+                        }
+                        Ok(None) => {
+                            chk.violation("process_request", "hang", format!("{:?} {:?}: did not finish within 30 virtual seconds", list, r), replay);
+                            continue;
+                        }
+                        Ok(Some(x)) => x,
+                    };
+                    let calls: Vec<String> = log.lock().unwrap().clone();
+                    let cbs: Vec<String> = cb.lock().unwrap().clone();
+                    let origin_bytes: Vec<u8> = a.origin_rx.lock().unwrap().iter().chain(b.origin_rx.lock().unwrap().iter()).flat_map(|x| x.lock().unwrap().clone()).collect();
+                    outcomes.add(&(calls.clone(), cbs.iter().map(|c| c.split(':').next().unwrap().to_string()).collect::<Vec<_>>(), props.connector.clone()));
+                    let class_of = |what: &str| {
+                        // class = what went wrong + the shape of the deciding situation
+                        let first = list.iter().position(|(f, _)| filt_matches(*f, r));
+                        let sit = match first {
+                            None => "no-rule-matches".to_string(),
+                            Some(i) => format!(
+                                "first-match:{}{}",
+                                if list[i].1 == "deny" { "deny" } else if !feats[list[i].1].contains(&r.feature) { "feature-missing" } else { "allow" },
+                                if list[..i].iter().any(|(f, _)| *f == Filt::HostIsOne && r.target.host().parse::<i64>().is_err()) { "+earlier-filter-errors" } else { "" }
+                            ),
+                        };
+                        format!("{what}|{sit}")
+                    };
+                    match &expect {
+                        Some(name) => {
+                            let ok_calls = calls == vec![format!("connect:{}", name)];
+                            if !ok_calls {
+                                chk.violation("routing.decision", &class_of("wrong-upstream"), format!("rules {:?} request {:?}: expected exactly one connect to {name}, saw {:?}", list, r, calls), replay.clone());
+                            } else if props.connector.as_deref() != Some(name.as_str()) {
+                                chk.violation("routing.record", &class_of("recorded-connector-differs"), format!("used {name} but recorded {:?}", props.connector), replay.clone());
+                            } else if !cbs.iter().any(|c| c == "on_connect") || cbs.iter().any(|c| c.starts_with("on_error")) {
+                                chk.violation("routing.callback", &class_of("no-success-callback"), format!("callbacks {:?}", cbs), replay.clone());
+                            } else if origin_bytes != b"abc" {
+                                chk.violation("routing.payload", &class_of("early-payload-not-forwarded"), format!("origin received {:?}", origin_bytes), replay.clone());
+                            }
+                        }
+                        None => {
+                            if !calls.is_empty() {
+                                chk.violation("routing.decision", &class_of("upstream-opened-on-refusal"), format!("rules {:?} request {:?}: must be refused, but saw {:?}", list, r, calls), replay.clone());
+                            } else if !origin_bytes.is_empty() {
+                                chk.violation("routing.payload", &class_of("payload-leaked-on-refusal"), format!("origin received {:?}", origin_bytes), replay.clone());
+                            } else if !cbs.iter().any(|c| c.starts_with("on_error")) || cbs.iter().any(|c| c == "on_connect") {
+                                chk.violation("routing.callback", &class_of("client-not-refused"), format!("callbacks {:?}", cbs), replay.clone());
+                            } else if props.state.last().map(|s| format!("{:?}", s).contains("ErrorOccured")) != Some(true) {
+                                chk.violation("routing.record", &class_of("refusal-not-recorded"), format!("states {:?}", props.state), replay.clone());
+                            }
+                        }
+                    }
+                }
+            }
+        });
+    }
+
+    // ---- request attributes visible to filters equal the connection's values
+    let mut attr_cases = 0u64;
+    for r in requests(true) {
+        let props = Arc::new(crate::context::ContextProps { listener: r.listener.clone(), source: r.source, target: r.target.clone(), request_feature: r.feature, ..Default::default() });
+        let expect: Vec<(&str, String)> = vec![
+            ("request.listener", r.listener.clone()),
+            ("request.feature", format!("{:?}", r.feature)),
+            ("request.source", r.source.to_string()),
+            ("request.source.host", r.source.ip().to_string()),
+            ("to_string(request.source.port)", r.source.port().to_string()),
+            ("request.source.type", if r.source.is_ipv4() { "ipv4" } else { "ipv6" }.to_string()),
+            ("request.target", r.target.to_string()),
+            ("request.target.host", r.target.host()),
+            ("to_string(request.target.port)", r.target.port().to_string()),
+            ("request.target.type", r.target.r#type().to_string()),
+        ];
+        for (expr, want) in expect {
+            attr_cases += 1;
+            let got = catch(|| {
+                let v = milu::parser::parse(expr).map_err(|e| e.to_string())?;
+                let ctx = Arc::new(create_context(props.clone()));
+                v.real_value_of(ctx).map_err(|e| e.to_string())
+            });
+            let ok = matches!(&got, Ok(Ok(milu::script::Value::String(s))) if *s == want);
+            if !ok {
+                chk.violation("filter.attributes", &format!("attribute:{}", expr), format!("{expr} for {:?}: got {:?}, connection value {want}", r, got.map(|x| x.map(|v| v.to_string()))), json!({"expr": expr, "request": format!("{:?}", r)}));
+            }
+        }
+    }
+
+    // ---- cidr_match vs bit-mask reference
+    let mut cidr_cases = 0u64;
+    {
+        let ctx = Arc::new(create_context(Default::default()));
+        let mut probe = |ip: String, cidr: String| {
+            cidr_cases += 1;
+            let expr = format!("cidr_match({:?}, {:?})", ip, cidr);
+            let got = catch(|| milu::parser::parse(&expr).map_err(|e| e.to_string()).and_then(|v| v.value_of(ctx.clone()).map_err(|e| e.to_string())));
+            let want = ref_cidr_match(&ip, &cidr);
+            let ok = matches!(&got, Ok(Ok(milu::script::Value::Boolean(b))) if *b == want);
+            if !ok {
+                let fam = if cidr.contains(':') { "ipv6" } else { "ipv4" };
+                chk.violation("cidr_match", &format!("disagrees-with-containment:{fam}"), format!("{expr}: got {:?}, standard containment says {want}", got.map(|x| x.map(|v| v.to_string()))), json!({"ip": ip, "cidr": cidr}));
+            }
+        };
+        for base in [0u32, 0x01020304, 0x0a000000, 0x7f000001, 0xc0a80101, 0xffffffff] {
+            for len in 0..=32u32 {
+                let mask: u32 = if len == 0 { 0 } else { u32::MAX << (32 - len) };
+                let net = base & mask;
+                let last = net | !mask;
+                let cidr = format!("{}/{}", std::net::Ipv4Addr::from(net), len);
+                for ip in [net.wrapping_sub(1), net, last, last.wrapping_add(1), base] {
+                    probe(std::net::Ipv4Addr::from(ip).to_string(), cidr.clone());
+                }
+                // host bits set in the network part, and an IPv6 address against an IPv4 network
+                probe(std::net::Ipv4Addr::from(base).to_string(), format!("{}/{}", std::net::Ipv4Addr::from(base), len));
+                probe("::1".to_string(), cidr.clone());
+            }
+        }
+        for base in [0u128, 1, 0x20010db8_00000000_00000000_00000001, 0xfe800000_00000000_00000000_00000001, u128::MAX] {
+            for len in 0..=128u32 {
+                let mask: u128 = if len == 0 { 0 } else { u128::MAX << (128 - len) };
+                let net = base & mask;
+                let last = net | !mask;
+                let cidr = format!("{}/{}", std::net::Ipv6Addr::from(net), len);
+                for ip in [net.wrapping_sub(1), net, last, last.wrapping_add(1), base] {
+                    probe(std::net::Ipv6Addr::from(ip).to_string(), cidr.clone());
+                }
+                probe("1.2.3.4".to_string(), cidr.clone());
+            }
+        }
+        for (ip, cidr) in [("1.2.3.4", "1.2.3.4"), ("1.2.3.4", "1.2.3.4/33"), ("1.2.3.4", "1.2.3.0/-1"), ("1.2.3.4", ""), ("", "1.2.3.0/24"), ("a.b", "0.0.0.0/0"), ("1.2.3.4", "0.0.0.0/0"), ("::1", "::/0"), ("1.2.3.4", "1.2.3.0/24 "), ("::ffff:1.2.3.4", "1.2.3.0/24"), ("1.2.3.4", "::ffff:1.2.3.0/120"), ("::1", "::1/129"), ("::1", "::1")] {
+            probe(ip.to_string(), cidr.to_string());
+        }
+    }
+
+    let n = runs.load(Ordering::Relaxed);
+    let nt = nontrivial.load(Ordering::Relaxed);
+    if n < 20_000 || nt < 1000 || outcomes.len() < 3 {
+        machinery(format!("vacuous: runs={n} nontrivial={nt} outcomes={}", outcomes.len()));
+    }
+    let coverage = json!({
+        "exhaustive": true,
+        "states": outcomes.len(), "transitions": n, "traces_validated_against_impl": n,
+        "evaluations": n + attr_cases + cidr_cases, "distinct_nontrivial": nt,
+        "rule": "all rule lists of length 0..3 (thorough: + all of length 4) over 12 shapes (4 filters incl. one that fails to evaluate x targets A,B,deny) x request grid (quick 12 representatives, thorough 96: listener x source family x target kind x port x feature) x 2 upstream feature sets, each through the real set_rules + process_request with recorder connectors. non-trivial = more than one rule matches or removing the first rule changes the decision (counted per run). states = distinct (connect calls, callbacks, recorded connector) observations",
+        "process_request_runs": n, "attribute_cases": attr_cases, "cidr_cases": cidr_cases,
+        "samples": [
+            {"rules": [{"filter": "to_integer(request.target.host) == 1", "target": "A"}, {"filter": "request.listener == \"l1\"", "target": "deny"}, {"target": "B"}], "request": "l1 127.0.0.1 -> a.b:80 UdpForward", "expected": "refused"},
+            {"cidr": "cidr_match(\"10.255.255.255\", \"10.0.0.0/8\")"}
+        ],
+    });
+    chk.finish(
+        "model_checking",
+        coverage,
+        vec![
+            "upstreams are recorder connectors installed in the real GlobalState.connectors map; the real load balancer's feature set is covered under C17".into(),
+            "filters beyond the four classes are C08's subject; rule lists longer than 4 are not enumerated".into(),
+        ],
+    );
+}
